@@ -176,6 +176,31 @@ func randTicker(rng *vk.Rand) string {
 	return string(b)
 }
 
+// badTicker returns a ticker outside the protocol's ticker alphabet/length ([A-Z0-9]{3,10}) and its class
+func badTicker(rng *vk.Rand) (string, string) {
+	good := randTicker(rng)
+	switch rng.Intn(6) {
+	case 0:
+		return strings.ToLower(good[:1]) + good[1:] + "a", "lowercase"
+	case 1:
+		b := []byte(strings.ToLower(good))
+		b[rng.Intn(len(b))] = byte('a' + rng.Intn(26))
+		return string(b), "lowercase"
+	case 2:
+		b := []byte(good)
+		b[rng.Intn(len(b))] = byte('a' + rng.Intn(26))
+		return string(b), "lowercase"
+	case 3:
+		return good[:2], "too-short"
+	case 4:
+		return (good + "ABCDEFGHIJK")[:11+rng.Intn(3)], "too-long"
+	default:
+		b := []byte(good)
+		b[rng.Intn(len(b))] = "-_ .@#/"[rng.Intn(7)]
+		return string(b), "charset"
+	}
+}
+
 func userAddr(i int) []byte {
 	b := make([]byte, 32)
 	copy(b, fmt.Sprintf("\x01esdt-user-%d", i))
@@ -186,7 +211,7 @@ func userAddr(i int) []byte {
 func main() {
 	_ = logger.SetLogLevel("*:NONE")
 	r := vk.Start("C41")
-	r.Rule("per case one ESDT contract and a history of 3-6 'bursts': a burst repeats the same (kind in issue/issueSemiFungible/issueNonFungible mixed, caller, random seed, ticker) 1-56 times so that the first candidate identifier already exists and the retry path is walked up to and beyond its limit; the random part comes from real blake2b or is steered to 000000/fffffe/ffffff/ffffd0/00ffff/0fffff; tickers are random [A-Z0-9]{3,10}, some share a prefix. An issue is non-trivial when its first candidate existed already or the start value was steered; distinct = (kind, start class, retry-depth bucket, outcome).")
+	r.Rule("per case one ESDT contract and a history of 3-6 'bursts': a burst repeats the same (kind in issue/issueSemiFungible/issueNonFungible mixed, caller, random seed, ticker) 1-56 times so that the first candidate identifier already exists and the retry path is walked up to and beyond its limit; the random part comes from real blake2b or is steered to 000000/fffffe/ffffff/ffffd0/00ffff/0fffff; tickers are random [A-Z0-9]{3,10}, some share a prefix; half of the bursts are preceded by one issue with a ticker outside that form (lower/mixed case, 2 or 11-13 characters, punctuation) that must be refused. An issue is non-trivial when its first candidate existed already or the start value was steered; distinct = (kind, start class, retry-depth bucket, outcome).")
 	r.Assume(
 		"an issue that fails with 'token identifier could not be created' is accepted only if at least 50 (the retry limit) identifiers with this ticker exist; otherwise it is reported as spurious-exhaustion",
 		"the identifier is observed three ways that must agree: returned value (ESDTTransfer data for issue, return data for SFT/NFT), the new key in the ESDT contract's storage updates, and the stored token record (ticker, owner)",
@@ -226,6 +251,36 @@ func main() {
 				reps = rng.Range(49, 56) // up to and beyond the retry limit
 			case x < 4:
 				reps = rng.Range(7, 30)
+			}
+			if rng.Chance(1, 2) {
+				// an issue with a ticker outside [A-Z0-9]{3,10} must not create a token: whatever identifier it
+				// would get is not of the form TICKER-xxxxxx
+				bt, bclass := badTicker(rng)
+				kind := kinds[rng.Intn(len(kinds))]
+				w.seed = seed
+				w.hasher.forced = sc.forced
+				w.nonce++
+				bargs := [][]byte{[]byte(fmt.Sprintf("Token%d", opIdx)), []byte(bt)}
+				if kind == "issue" {
+					bargs = append(bargs, big.NewInt(1000).Bytes(), []byte{2})
+				}
+				bout, berr := w.sysVM.RunSmartContractCall(&vmcommon.ContractCallInput{
+					VMInput:       vmcommon.VMInput{CallerAddr: append([]byte{}, caller...), CallValue: big.NewInt(1000), GasProvided: 100000, Arguments: bargs},
+					RecipientAddr: vm.ESDTSCAddress,
+					Function:      kind,
+				})
+				opIdx++
+				r.Eval(1)
+				r.Count("tx_invalid_ticker_"+bclass, 1)
+				if berr != nil || bout == nil {
+					r.Inconclusive(fmt.Sprintf("system VM error: %v", berr))
+					return
+				}
+				bline := fmt.Sprintf("#%d %s invalid ticker=%q (%s) -> %v %q", opIdx, kind, bt, bclass, bout.ReturnCode, bout.ReturnMessage)
+				trace = append(trace, bline)
+				if bout.ReturnCode == vmcommon.Ok {
+					r.Violation(c.Idx, "invalid-ticker-issued class="+bclass, fmt.Sprintf("%s with ticker %q (%s) returned Ok: a token was issued whose identifier cannot have the form TICKER-xxxxxx", kind, bt, bclass), map[string]interface{}{"last_ops": append([]string{}, trace...), "ticker": bt})
+				}
 			}
 			for i := 0; i < reps; i++ {
 				kind := kinds[rng.Intn(len(kinds))]
